@@ -4,6 +4,7 @@ import (
 	"fmt"
 	"os"
 	"sort"
+	"sync/atomic"
 	"time"
 )
 
@@ -263,16 +264,30 @@ var wdStop = make(chan struct{}, 1)
 // RunWallLimit is the per-run wall clock limit.
 var RunWallLimit = 240 * time.Second
 
+// abortRun asks the executor to give the current run up (checked once per
+// action; reading it does not influence the simulation).
+var abortRun atomic.Bool
+
 func watchdogArm(profile string, i int) {
 	select {
 	case <-wdStop:
 	default:
 	}
+	abortRun.Store(false)
 	go func() {
 		select {
 		case <-wdStop:
+			return
 		case <-time.After(RunWallLimit):
-			fmt.Fprintf(os.Stderr, "watchdog: run %d of profile %s exceeded %v\n", i, profile, RunWallLimit)
+			// first the polite way: the executor ends the run at its next action
+			// (the run is counted as abandoned, nothing is concluded from it)
+			fmt.Fprintf(os.Stderr, "watchdog: run %d of profile %s exceeded %v, abandoning it\n", i, profile, RunWallLimit)
+			abortRun.Store(true)
+		}
+		select {
+		case <-wdStop:
+		case <-time.After(RunWallLimit):
+			fmt.Fprintf(os.Stderr, "watchdog: run %d of profile %s does not return\n", i, profile)
 			os.Exit(3)
 		}
 	}()
